@@ -27,6 +27,7 @@ func (w *World) Serve(q *Req) {
 	cancel := ctx.cancel
 	q.rawCancel = cancel
 	q.substituted = false
+	q.StartStamp = sched.Stamp()
 	q.logSink.b = q.logSink.b[:0]
 	q.Local.Ref = q
 	q.Local.Init(q.PlannedCancel, func() {
@@ -45,7 +46,7 @@ func (w *World) Serve(q *Req) {
 	}
 	u := &url.URL{Path: q.Path, RawQuery: q.Query}
 	req := (&http.Request{Method: q.Method, URL: u, Header: h, Proto: "HTTP/1.1", ProtoMajor: 1, ProtoMinor: 1,
-		Host: "sim", RequestURI: q.Path, RemoteAddr: "192.0.2." + itoa(q.ID%250) + ":4000"}).WithContext(ctx)
+		Host: hostOf(q), RequestURI: requestURI(q), RemoteAddr: "192.0.2." + itoa(q.ID%250) + ":4000"}).WithContext(ctx)
 	if q.Body != "" {
 		req.Body = io.NopCloser(strings.NewReader(q.Body))
 		req.ContentLength = int64(len(q.Body))
@@ -117,11 +118,29 @@ func (c *simCtx) cancel() {
 //go:norace
 func (q *Req) replaceCancel(c func()) { q.rawCancel = c }
 
+func hostOf(q *Req) string {
+	if q.Host != "" {
+		return q.Host
+	}
+	return "sim"
+}
+
+func requestURI(q *Req) string {
+	if q.Query != "" {
+		return q.Path + "?" + q.Query
+	}
+	return q.Path
+}
+
 // DescribePanic renders a recovered value without fmt.
 func DescribePanic(p interface{}) string {
 	switch v := p.(type) {
 	case string:
 		return "string:" + v
+	case fmtValue:
+		return "formatter"
+	case publicValue:
+		return "public"
 	case *fragileErr:
 		return "error-with-panicking-Error()"
 	case errList:
@@ -250,4 +269,4 @@ func (q *Req) DescribeProgs() []string {
 
 // OpNames for reports.
 var OpNames = []string{"yield", "writeHeader", "write", "flush", "next", "nextSwallow", "cancel", "mapExtra", "seeExtra", "panic", "echo",
-	"mark", "checkMark", "setHeader", "before", "render", "redirect", "status", "cookie", "seeSvc", "seeHeaders", "mapIface", "seeIface", "invoke", "apply", "seeNamer", "httpError", "setContentLength", "expireCtx", "mapOwnWriter", "seePath", "seeBody", "mapReturnHandler", "mutQuery", "replaceCtx"}
+	"mark", "checkMark", "setHeader", "before", "render", "redirect", "status", "cookie", "seeSvc", "seeHeaders", "mapIface", "seeIface", "invoke", "apply", "seeNamer", "httpError", "setContentType", "setContentLength", "expireCtx", "mapOwnWriter", "seePath", "seeBody", "mapReturnHandler", "mutQuery", "replaceCtx"}
